@@ -6,6 +6,7 @@ from __future__ import annotations
 import itertools as it
 
 from vlib.explore import Violation
+from vlib.server import run_coro
 from vlib.server import EXC_TYPES, MARKER, Rig
 from vlib.wire import KINDS, Box, Wire, build, obj, same_json
 
@@ -62,6 +63,10 @@ def obligations(tier):
         for exc in EXC_TYPES:
             for mode in ('call', 'notif', 'batch0', 'batch1'):
                 obs.append({'h': 'exc', 'exc': exc, 'mode': mode, 'disp': d})
+        for a, b in it.product(('absent', 'null', 'int', 'str', 'zero', 'list'), repeat=2):
+            if a != b or a in ('int', 'list'):
+                obs.append({'h': 'app2', 'data': [a, b], 'disp': d})
+        obs.append({'h': 'app2', 'data': ['str', 'absent', 'null'], 'disp': d})
         for why in ('empty', 'nonrequest0', 'nonrequest1', 'dup', 'over', 'dupstr', 'dup3', 'dupmix', 'dupmix5', 'dupnotif'):
             obs.append({'h': 'badbatch', 'why': why, 'disp': d})
     return obs
@@ -346,5 +351,49 @@ def h_badbatch(ob):
         if rig.log:
             raise Violation('bad-batch-executed', rig.log)
         return 'ok'
+
+    return run
+
+
+def h_app2(ob):
+    """A batch of TWO failing calls whose errors have the same code and message but different data (absent / null / values):
+    each response carries exactly its own data."""
+    def run(env):
+        import pjrpc.server
+        from pjrpc.common import UNSET
+        wire = Wire(env)
+        is_async = ob['disp'] == 'async'
+        code, msg = env.int('code'), env.str('msg', 2)
+        states = {'absent': UNSET, 'null': None, 'int': env.int('d_int'), 'str': 'first', 'zero': 0, 'list': [env.int('d_l')]}
+
+        def fail(which):
+            raise pjrpc.exc.JsonRpcError(code=code, message=msg, data=states[which])
+
+        if is_async:
+            async def afail(which):
+                fail(which)
+            fn = afail
+        else:
+            fn = fail
+        d = (pjrpc.server.AsyncDispatcher if is_async else pjrpc.server.Dispatcher)(**wire.kwargs())
+        d.add(fn, name='fail')
+        doc = [{'jsonrpc': '2.0', 'id': i, 'method': 'fail', 'params': [w]} for i, w in enumerate(ob['data'])]
+        try:
+            out = d.dispatch(wire.encode(doc))
+            if is_async:
+                out = run_coro(out)
+        except Exception as e:
+            raise Violation('raised:' + type(e).__name__, doc)
+        env.reached()
+        rdoc = wire.decode(out[0])
+        if not isinstance(rdoc, list) or len(rdoc) != len(doc):
+            raise Violation('batch-response-shape', rdoc)
+        for i, (w, r) in enumerate(zip(ob['data'], rdoc)):
+            want = {'code': code, 'message': msg}
+            if w != 'absent':
+                want['data'] = states[w]
+            if r.get('id') != i or 'error' not in r or not same_json(r['error'], want):
+                raise Violation('app-error-not-verbatim', (i, want, r))
+        return ['verbatim2']
 
     return run
